@@ -37,8 +37,10 @@ ASSUMPTIONS = [
     "roles -> limit entries: kernel/depthwise/pointwise=0, bias=1, recurrent=2 of a 4-entry list, "
     "activation/linear/recurrent_activation=last; 'default' (8 if absent) replaces missing entries",
     "generated limits always admit at least one configured string per role (no empty choice); "
-    "tune_filters_exceptions patterns are anchored; GRU uses reset_after=False and Conv2DTranspose "
-    "is not generated (neither can be built quantized in this image)",
+    "tune_filters_exceptions patterns are anchored; Conv2DTranspose is not generated (cannot be built "
+    "quantized in this image); 'default' is absent, a number, or a 3/4-entry list (the constructor "
+    "asserts 3 <= len <= 4); regular-expression keys are always written in full (only class keys "
+    "are completed from 'default')",
     "an exception of quantize_model for a generated (documented-valid) input is reported as sub_check "
     "quantize_raises: the property quantifies over assignments that must yield a trial model",
     "forgiving factor: rate and deltas are exactly representable in float32, sizes are integers "
